@@ -431,7 +431,10 @@ def _check(inp, obs, info):
                 # get_current_parameters() shows the row's own parameters: the supplied ones and the
                 # Python-side defaults that fired before this column (table order)
                 ok = got is not None
-                if ok and not tagged:
+                # (a Core executemany row with keys the first set lacks has those keys ignored - the known
+                # deviation - so the context legitimately lacks them: exact check only for conforming rows)
+                extra_keys = (not orm) and len(psets) > 1 and not (set(pd) <= keysets[0])
+                if ok and not tagged and not extra_keys:
                     s_ = 0
                     for cj, (k2, d2) in enumerate(cols):
                         if k2 in pd:
